@@ -743,6 +743,14 @@ def eq_pairs_for(arr, rng):
             p2[v] = p2[v] + f * tol * np.array([np.cos(th), np.sin(th)])
             out.append({"label": f"displacement:{f:.6f}", "B": [p2.tolist(), idx.tolist(), cross.tolist()], "expect": exp,
                         "note": f"vertex {v} displaced by {f} x (mean spacing / 100)"})
+        # large displacements, in particular by (nearly) whole cell vectors: a vertex moved by (1,0) is NOT the same lattice
+        # (its edge vectors change by a cell); equality must not be taken modulo the unit cell
+        for d in ((1.0, 0.0), (0.0, -1.0), (2.0, -1.0), (1.0 + tol / 2, 0.0), (0.5, 0.5)):
+            v = int(rng.integers(V))
+            p2 = pos.copy()
+            p2[v] = p2[v] + np.array(d)
+            out.append({"label": f"displacement-by-cell-vector:{d}", "B": [p2.tolist(), idx.tolist(), cross.tolist()], "expect": "differ",
+                        "note": f"vertex {v} displaced by {d}"})
         # the float32 rounding itself
         out.append({"label": "float32", "B": [pos.astype(np.float32).astype(float).tolist(), idx.tolist(), cross.tolist()], "b32": True,
                     "expect": "equal" if float(np.max(np.abs(pos))) <= 2 else None})
